@@ -520,6 +520,16 @@ func ruleProvContent(c *Ctx, r *Rep) {
 					}
 				}
 				r.Check(ok2 && hitAny, "wired|"+dest+"|"+fk, c.Pos(st.Pos()), dest+" <- YAML field "+strings.Join(want, "/"), fmtSet(got))
+				// text reaches the certificate as written: where the value stored is a string (a name, a URI, a notice), nothing
+				// on the way from the YAML string rewrites it (no re-serialisation through a parser, no case folding)
+				if sv := unwrapIface(st.Val); isStringish(sv.Type()) {
+					var rew []string
+					for _, x := range pv.Origins(sv) {
+						rew = append(rew, rewritingCalls(c, pv, x, 0, map[string]bool{})...)
+					}
+					rew = uniq(rew)
+					r.Check(len(rew) == 0, "text-as-written|"+dest+"|"+fk, c.Pos(st.Pos()), "only text-preserving operations between the YAML string and the field", strings.Join(rew, ", "))
+				}
 				// per-element structures take their values from the element being converted, not from the enclosing level
 				if via := contentVia[owner]; via != "" {
 					okVia := len(o) > 0
@@ -1017,4 +1027,54 @@ func flagDNF(d [][]literal) [][]literal {
 		out = append(out, ls)
 	}
 	return out
+}
+
+// isStringish: a string or a named string type (or a byte-free conversion of one).
+func isStringish(t types.Type) bool {
+	b, ok := t.Underlying().(*types.Basic)
+	return ok && b.Info()&types.IsString != 0
+}
+
+func init() {
+	register(&Rule{Name: "HASH-SOURCE", Floor: 1, Run: ruleHashSource,
+		Doc: "what the hash sees of a configuration comes from the configuration document: no field of the configuration other than the two the hash forgets (Alias, Profile) is filled, anywhere outside the configuration readers, from a file name, a directory entry, the clock or the environment"})
+}
+
+func ruleHashSource(c *Ctx, r *Rep) {
+	pv := c.newProv()
+	forgotten := map[string]bool{"Alias": true, "Profile": true}
+	n := 0
+	for _, fn := range c.Funcs {
+		if fn.Pkg == nil {
+			continue
+		}
+		path := fn.Pkg.Pkg.Path()
+		if strings.HasSuffix(path, "/config") || strings.Contains(path, "/config/") {
+			continue // the readers of the document and the merge: their wiring is PROV-SUBJECT, PROV-EXT, MERGE-COPY
+		}
+		k := 0
+		for _, fs := range storesIntoType(c, fn, "config.CertificateContent") {
+			if fs.whole || fs.field == "" {
+				continue
+			}
+			top := fs.field
+			if i := strings.Index(top, "."); i >= 0 {
+				top = top[:i]
+			}
+			if forgotten[top] {
+				continue
+			}
+			k++
+			n++
+			o := strings.Join(pv.Origins(fs.val()), " , ")
+			bad := ""
+			for _, what := range []string{"P(filesystem.", "time.Now(", "os.", "path/filepath.", "io/fs."} {
+				if strings.Contains(o, what) {
+					bad = "derived from " + what + "…"
+				}
+			}
+			r.Check(bad == "", sprintf("document-only|%s|%s#%d", top, c.FuncKey(fn), k), c.Pos(fs.st.Pos()), "a hashed field is not filled from where or when the configuration was read", bad)
+		}
+	}
+	r.Ok("scanned", "", "stores into configuration fields outside the config packages", sprintf("%d", n))
 }
